@@ -23,7 +23,7 @@ from .tlv_type import VarBinaryStr, BinaryStr, NonStrictName, FormalName
 from .tlv_var import parse_and_check_tl, shrink_length
 from .tlv_model import TlvModel, InterestNameField, BoolField, UintField, \
     SignatureValueField, OffsetMarker, BytesField, ModelField, NameField, \
-    ProcedureArgument, RepeatedField
+    ProcedureArgument, RepeatedField, DecodeError
 
 
 __all__ = ['TypeNumber', 'ContentType', 'SignatureType', 'KeyLocator', 'SignatureInfo', 'Delegation',
@@ -217,6 +217,9 @@ class InterestPacketValue(TlvModel):
             markers = {}
         cls._sig_cover_part.set_arg(markers, [])
         ret = super().parse(wire, markers, ignore_critical)
+        if 'name' not in ret.__dict__:
+            # The default "/" is only for encoding; a packet on the wire must carry its Name
+            raise DecodeError('the Name of the Interest is missing')
         digest_cover_start = cls._digest_cover_start.get_arg(markers)
         digest_cover_end = cls._digest_cover_end.get_arg(markers)
         digest_cover_part = [memoryview(wire)[digest_cover_start:digest_cover_end]]
@@ -294,7 +297,11 @@ class DataPacketValue(TlvModel):
         if markers is None:
             markers = {}
         cls._sig_cover_part.set_arg(markers, [])
-        return super().parse(wire, markers, ignore_critical)
+        ret = super().parse(wire, markers, ignore_critical)
+        if 'name' not in ret.__dict__:
+            # The default "/" is only for encoding; a packet on the wire must carry its Name
+            raise DecodeError('the Name of the Data packet is missing')
+        return ret
 
 
 class DataPacket(TlvModel):
